@@ -151,6 +151,11 @@ def work(arg):
     return out
 
 
+# the representation the isotherm is STORED in (the analysis reads relative pressure and cm3 of liquid per g whatever it is)
+STORED = [None, dict(pressure_mode='relative%'), dict(pressure_mode='absolute', pressure_unit='kPa'), dict(loading_basis='volume_liquid', loading_unit='L', material_unit='kg'),
+          dict(loading_basis='molar', loading_unit='mmol'), dict(loading_basis='volume_liquid', loading_unit='m3')]
+
+
 def check_entry(ctx):
     """psd_mesoporous on isotherms: limits, cumulative curve, property sets, re-defined adsorbate."""
     import pygaps
@@ -170,9 +175,11 @@ def check_entry(ctx):
                 used = dict(T=pr['T'], M=a.molar_mass(), rho=a.liquid_density(pr['T']), gamma=a.surface_tension(pr['T']))
             for gname, p in grids(ctx.scale).items():
                 vol = 0.05 + 0.8 * p ** 2
-                for branch in ('ads', 'des'):
+                for branch, stored in [(b_, s_) for b_ in ('ads', 'des') for s_ in STORED]:
                     pp, vv = (p, vol) if branch == 'ads' else (p[::-1], vol[::-1])
                     iso = pygaps.PointIsotherm(pressure=pp, loading=vv, branch=branch, material='c16', adsorbate=aname, temperature=pr['T'], **U)
+                    if stored and (gname != 'lin12' or not core.call(iso.convert, **stored).ok):
+                        continue        # other stored representations on one grid (and only where the adsorbate allows the conversion)
                     for method, pore in (('pygaps-DH', 'slit'), ('pygaps-DH', 'cylinder'), ('pygaps-DH', 'sphere'), ('BJH', 'cylinder'), ('DH', 'cylinder')):
                         for lim in (None, (0.2, 0.9), (0.1, None), (None, None)):
                             if lim == (None, None):
@@ -217,8 +224,9 @@ def check_entry(ctx):
                             if (numpy.diff(widths) <= 0).any():
                                 ctx.violate(core.make_violation(dict(sig, check='entry-widths-not-increasing'), f'psd_mesoporous({method},{pore},{branch},{lim}) on {prname}/{gname}: widths not increasing {widths[-4:]}', {}))
                             cum = numpy.asarray(r['pore_volume_cumulative'])
-                            if abs(cum[-1] - vol[idx[-1]]) > 1e-9 * abs(vol[idx[-1]]):
-                                ctx.violate(core.make_violation(dict(sig, check='entry-cumulative-end'), f'cumulative curve ends at {cum[-1]} but the volume adsorbed at the highest pressure used is {vol[idx[-1]]}', {}))
+                            per = 1000.0 if (stored or {}).get('material_unit') == 'kg' else 1.0       # results are per material unit of the isotherm
+                            if abs(cum[-1] - per * vol[idx[-1]]) > 1e-9 * abs(per * vol[idx[-1]]):
+                                ctx.violate(core.make_violation(dict(sig, check='entry-cumulative-end', stored=str(stored)), f'[stored as {stored}] cumulative curve ends at {cum[-1]} but the volume adsorbed at the highest pressure used is {per * vol[idx[-1]]} cm3 per material unit', {}))
                             if not numpy.allclose(numpy.diff(cum), numpy.asarray(r['pore_volumes'])[1:], rtol=1e-9, atol=1e-13):
                                 ctx.violate(core.make_violation(dict(sig, check='entry-cumulative-steps'), 'cumulative curve is not the running sum of the pore volumes', {}))
         # the same adsorbate name re-defined with other properties between two analyses
